@@ -280,16 +280,30 @@ Qed.
 
 (* ---------- 5. the theorem ---------- *)
 
+Lemma inst_step_inv : forall cap pool maxd E P i, In i (instances pool maxd E) -> Inv E P -> Inv E (inst_step cap P i).
+Proof.
+  intros cap pool maxd E P [[d l] r] Hi HP. unfold inst_step.
+  destruct (Nat.ltb cap (List.length (universe P))); [exact HP|].
+  destruct (relevant P d l r); [|exact HP].
+  apply merge_inv.
+  - intros _. cbn [fst snd]. exact (instances_sound pool maxd E d l r Hi).
+  - apply (fold_left_inv part elem (Inv E)); [|exact HP].
+    intros P' e HP'. apply add_elem_inv. exact HP'.
+Qed.
+
+Lemma inst_rounds_inv : forall cap pool maxd E k P, Inv E P -> Inv E (inst_rounds cap k (instances pool maxd E) P).
+Proof.
+  intros cap pool maxd E k. induction k as [|k IH]; intros P HP; cbn [inst_rounds]; [exact HP|].
+  assert (H' : Inv E (fold_left (inst_step cap) (instances pool maxd E) P)).
+  { apply (fold_left_inv_In part (nat * cterm * cterm) (Inv E)); [|exact HP].
+    intros P' i Hi HP'. eapply inst_step_inv; eauto. }
+  cbv zeta. destruct (Nat.eqb _ _); [exact H'|apply IH; exact H'].
+Qed.
+
 Lemma gcc_part_inv : forall pool maxd fuel E terms, Inv E (gcc_part pool maxd fuel E terms).
 Proof.
-  intros pool maxd fuel E terms. unfold gcc_part. cbv zeta.
-  apply iter_pass_inv.
-  apply (fold_left_inv_In part (nat * cterm * cterm) (Inv E)).
-  { intros P [[d l] r] Hi HP. apply merge_inv; [|exact HP]. intros _. cbn [fst snd].
-    exact (instances_sound pool maxd E d l r Hi). }
-  apply (fold_left_inv part (nat * cterm * cterm) (Inv E)).
-  { intros P [[d l] r] HP. apply (fold_left_inv part elem (Inv E)); [|exact HP].
-    intros P' e HP'. apply add_elem_inv. exact HP'. }
+  intros pool maxd fuel E terms. unfold gcc_part, gcc_part_cap. cbv zeta.
+  apply iter_pass_inv. apply inst_rounds_inv.
   apply (fold_left_inv part elem (Inv E)); [|apply Inv_nil].
   intros P' e HP'. apply add_elem_inv. exact HP'.
 Qed.
